@@ -6,6 +6,11 @@ CHECKS = {
         technique="TLA+ spec ShEnviron model-checked exhaustively by TLC (all pair lists up to a bound); every state replayed on expand.ListEnviron/FuncEnviron",
         text="TLC enumerates every pair list up to the bound over an alphabet built for the edge cases the property names, checks the contract's own consistency (two independent definitions of last-write-wins, sortedness, validity), and each state becomes one conformance test of the real ListEnviron (Get for 15 names, Each order, early stop, input not mutated) and FuncEnviron.",
         note="Trusts TLC, the JSON vector pipeline and the harness comparison; bounded list length (3 quick / 4 thorough) and a fixed alphabet of pairs and query names; non-Windows behaviour only."),
+    "C33": dict(
+        level="model_checking", engine="ShArrays", design="7/C33",
+        technique="TLA+ spec ShArrays (map vs (list,indexes) refinement) model-checked by TLC; complete state graph walked: every edge replayed on the real sparse-array helpers and as a shell program in interp vs bash",
+        text="TLC checks that the representation-level contract of the sparse array helpers refines the index->value map on the complete state graph (indices 0..3 quick / 0..5 thorough, three values incl. empty). Every edge is one call of the real helpers through hook H5 (result must be the canonical representation of the target state) and one shell program run by interp and bash whose dump (values, keys, count, elements, slices, a[-1]) must equal the dump the spec defines; seeded random walks of length <=20 run at top level, in a function with a local array and in a subshell.",
+        note="Trusts TLC, the renderer of operations to shell syntax and bash 5.2 as reference; bounded index range and value set; negative subscripts only when in range (out-of-range is an error path covered by C28)."),
 }
 
 NOT_YET = "check not built yet in this session; the TLA+-based design for it is in DESIGN.md section 7"
